@@ -87,7 +87,7 @@ def run_C04(ctx, rep):
 
 def run_C15(ctx, rep):
     n = witness_rules.run_witnesses(ctx, rep, ctx.tier)
-    rep.floor('W', 60 if ctx.tier == 'quick' else 300, 'compile witnesses')
+    rep.floor('W', 80 if ctx.tier == 'quick' else 350, 'compile witnesses')
     return {'cov': {'exhaustive': True, 'witness_tier': ctx.tier}}
 
 
@@ -193,7 +193,8 @@ PROPS = {
                        '(undeclared relation in head / body / agg / negation, wrong arity in the same four positions, aggregation or negation '
                        'inside the own recursive stratum - directly, through a 2-cycle and a 3-cycle in EVERY order of the rules, rebinding by '
                        'let / for / agg pattern / if-let, self- mutually- and head-recursive macros, include_source! inside ascent_source!, #[ds] on '
-                       'a lattice, two #[ds], unknown inner attribute, attribute on a rule / macro, inter_rule_parallelism in a serial macro) x '
+                       'a lattice, two #[ds], unknown inner attribute / attribute with arguments, attribute on a rule / macro, inter_rule_parallelism in a serial '
+                       'macro, empty lattice, undefined macro, missing macro arguments, unbound head variable, wildcard in a head) x '
                        'position x the four macros: the crate fails to compile, a diagnostic with the expected text has its primary span in the '
                        'program, no macro panic / ICE, and the twin differing only in the offending construct compiles.',
         'assumptions': ['kinds outside the enumerated matrix are not decided', 'message quality beyond the fragment is not judged'],
